@@ -61,6 +61,11 @@ def gen(seed, tier="quick"):
                                         {"ev": "STRATEGY", "n": 1}, {"ev": "BUDGET", "n": 1},
                                         {"ev": "SLEEP_END", "n": r.randint(1, 2)}, {"ev": "OP_BEGIN", "n": r.randint(1, 3)}])
     scn["hooks"]["timeline"] = r.choice([None, True])
+    if r.random() < 0.08:
+        # the operation is itself a policy call that gave up: its RetryExhaustedError passes through every entry point
+        call = scn["calls"][0]
+        i = r.randrange(0, max(1, min(scn["cfg"]["max_attempts"], len(call["attempts"]))))
+        call["attempts"][i] = {"kind": "nested_ree", "dur": call["attempts"][i].get("dur", 0)}
     scn["place"]["bs_async"] = r.random() < 0.5
     scn["place"]["sleeper_kind"] = r.choice(["async", "sync"])
     if r.random() < 0.4:
@@ -87,6 +92,8 @@ def result_fact(cf):
         return ("value", end["value"])
     if end["how"] == "raise":
         exc = end["exc"]
+        if str(exc.get("obj") or "").startswith("N"):
+            return ("nested", exc.get("obj"))      # the operation's own RetryExhaustedError, passed through
         if "ree" in exc:
             r = exc["ree"]
             return ("ree", r["stop_reason"], r["attempts"], r["last_class"], r["last_exception"], r["last_result"], r["next_sleep_s"])
@@ -183,7 +190,7 @@ def execute(scn):
                           {"entry": name, "index": k, "reference": a[k] if k < len(a) else None, "got": b[k] if k < len(b) else None}))
         if key[2] == "execute":
             for cid, cf in calls_by_key[key].items():
-                if cf.end is not None and cf.end["how"] == "raise":
+                if cf.end is not None and cf.end["how"] == "raise" and not str(cf.end["exc"].get("obj") or "").startswith("N"):
                     viol.append(V("R2", f"{key[1]}.execute ({key[0]}) raised instead of returning a RetryOutcome",
                                   {"entry": name, "exc": cf.end["exc"]}))
         if facts != group_ref[2]:
